@@ -38,13 +38,14 @@ VARIABLES l,      \* next line of the trace
           heap,   \* ledger sub-machine: live blocks [id, inst, bytes]
           objs,   \* lifetime sub-machine: live instrumented objects [blk, off, sz]
           ob,     \* previous observation of every vector (for the stability judgements)
+          obe,    \* previous observation of every stand-alone element
           ex,     \* per vector: its block was requested for exactly its current capacity (Construct, growing
                   \* Reserve, and what inherits such a block); after an assignment a vector may legitimately keep
                   \* a larger block it owned before (C05 footprint clause), so the exact-footprint clause is
                   \* only judged while ex holds
           skip    \* rest of the current history is not judged (after its first divergence)
 
-tvars == <<vec, el, act, l, heap, objs, ob, ex, skip>>
+tvars == <<vec, el, act, l, heap, objs, ob, obe, ex, skip>>
 
 NoObs == [st |-> "none"]
 MA == LO!MaxAl(P)
@@ -108,6 +109,10 @@ SlotsOf(o, E) ==
 (***************************************************************************)
 Bad(c, name) == IF c THEN {} ELSE {name}
 
+SoftKinds == {"TIGHT", "ORDER", "ALIGN", "DATA_BEGIN", "FULL_FOOTPRINT", "FOOTPRINT", "ALLOCATOR_USED",
+              "BLOCK_CHANGED", "CAPACITY_CHANGED", "ADDRESS_MOVED", "BLOCK_NOT_TRANSFERRED", "DATA_RANGE",
+              "DATA_EXCEEDS_MEMORY_CONSUMPTION", "EMPTY_RANGE", "PATHS_DISAGREE"}
+
 Primary(o) == o.P[o.pn[1]]
 
 ShapeOK(r, E) ==
@@ -167,6 +172,51 @@ JudgeVec(r, o, exact) ==
   ELSE IF o = NoObs THEN {"OBS_MISSING"}
   ELSE IF r.st = "moved" THEN JudgeMoved(r, o)
   ELSE IF o.st # "live" THEN {"STATE"} ELSE JudgeLive(r, o, exact)
+
+(***************************************************************************)
+(* Judging one stand-alone element (C12 and the layout properties): model  *)
+(* record r, observation o.  An element owns one block and starts at its   *)
+(* first byte.                                                             *)
+(***************************************************************************)
+EObsOf(e, x) == LET s == {q \in 1..Len(e.eobs) : e.eobs[q].x = x} IN
+                IF s = {} THEN NoObs ELSE e.eobs[CHOOSE q \in s : TRUE]
+
+ElFx(c) == [k \in Idx |-> IF P[k].k = "fixed" THEN Len(c.f[k]) ELSE 0]
+
+JudgeElLive(r, o) ==
+  LET E == <<o.P[o.pn[1]]>>
+      rr == [elems |-> <<r.e>>]
+      shape == ShapeOK(rr, E)
+      inblk == o.blk > 0 /\ o.blive = 1
+  IN
+  Bad(o.al = r.al, "GET_ALLOCATOR")
+  \cup Bad(\A q \in 1..Len(o.pn) : o.pn[q] = o.pn[1], "PATHS_DISAGREE")
+  \cup Bad(shape, "SHAPE")
+  \cup (IF shape THEN Bad(ValuesOK(rr, E), "VALUES") ELSE {})
+  \cup Bad(inblk, "DATA_NOT_IN_LIVE_BLOCK")
+  \cup (IF inblk THEN Bad(EqAlloc(o.binst, o.al), "BLOCK_FROM_UNEQUAL_ALLOCATOR")
+                      \cup Bad(o.res % MA = 0, "BLOCK_BASE_MISALIGNED") ELSE {})
+  \cup (IF shape /\ inblk
+        THEN Bad(LO!ElemsInOrder(P, E, 0, o.bsz), "ORDER")
+             \cup Bad(LO!ElemsInBlock(P, E, 0, o.bsz, o.bsz), "BOUNDS")
+             \cup Bad(LO!ElemsAligned(P, E, o.res), "ALIGN")
+             \cup Bad(LO!ElemsTight(P, ElFx(r.e), E, <<ElemVs(r.e)>>, 0), "TIGHT")
+        ELSE {})
+
+JudgeEl(r, o) ==
+  IF r.st = "absent" THEN Bad(o = NoObs, "OBS_OF_ABSENT")
+  ELSE IF o = NoObs THEN {"OBS_MISSING"}
+  ELSE IF r.st = "moved" THEN Bad(o.st = "moved", "STATE") \cup Bad(o.al = r.al, "GET_ALLOCATOR")
+  ELSE IF o.st # "live" THEN {"STATE"} ELSE JudgeElLive(r, o)
+
+(* which containers an operation may touch; everything else must be observed unchanged *)
+SrcVecOps == {"ElemFromRef", "ElemFromRvRef", "ElemAssignFromRef", "ElemAssignFromRvRef"}
+TouchedVecs(e) ==
+  IF e.n \in ElemOps THEN (IF e.n \in {"ElemFromRvRef", "ElemAssignFromRvRef"} THEN {e.a[1]} ELSE {})
+  ELSE {e.v} \cup (IF e.n \in VecOps2 THEN {e.a[1]} ELSE {})
+TouchedEls(e) ==
+  IF e.n \in ElemOps THEN {e.v} \cup (IF e.n \in ElemOps2 THEN {e.a[1]} ELSE {})
+  ELSE IF e.n = "RefAssignFromRvElem" THEN {e.a[2]} ELSE {}
 
 (* C16: address stability.  keep = number of leading elements that must not move *)
 SameAddrs(E1, E2, keep) ==
@@ -233,9 +283,10 @@ ResetState ==
   /\ el' = [x \in Elems |-> Absent]
   /\ heap' = {} /\ objs' = {} /\ skip' = FALSE
   /\ ob' = [v \in Vecs |-> NoObs]
+  /\ obe' = [x \in Elems |-> NoObs]
   /\ ex' = [v \in Vecs |-> FALSE]
 
-Hold == UNCHANGED <<vec, el, heap, objs, ob, ex, skip>>
+Hold == UNCHANGED <<vec, el, heap, objs, ob, obe, ex, skip>>
 
 ExactAfter(e, R) ==
   [v \in Vecs |->
@@ -252,7 +303,7 @@ ExactAfter(e, R) ==
 
 StepOp(e) ==
   IF ~PreOf(S0, e.n, e.v, e.a)
-  THEN Report(e, {"DRIVER_PRECONDITION"}) /\ skip' = TRUE /\ UNCHANGED <<vec, el, heap, objs, ob, ex>>
+  THEN Report(e, {"DRIVER_PRECONDITION"}) /\ skip' = TRUE /\ UNCHANGED <<vec, el, heap, objs, ob, obe, ex>>
   ELSE
     LET par == e.par
         R == EffOf(S0, e.n, e.v, e.a, par)
@@ -266,13 +317,13 @@ StepOp(e) ==
           \cup Bad(e.ret = RetIdx(e.n, e.a), "RETURNED_ITERATOR")
           \cup lg.bad \cup lf.bad
           \cup UNION {JudgeVec(R.vec[v], ObsOf(e, v), exa[v]) : v \in Vecs}
-          \cup (IF e.v \in Vecs /\ vec[e.v].st = "live"
+          \cup UNION {JudgeEl(R.el[x], EObsOf(e, x)) : x \in Elems}
+          \cup (IF e.n \notin ElemOps /\ e.v \in Vecs /\ vec[e.v].st = "live"
                 THEN JudgeStability(e, vec[e.v], ob[e.v], ObsOf(e, e.v)) ELSE {})
-          \cup JudgeTransfer(e, ob)
-          \cup JudgeFootprint(e, ob)
-          \* vectors that are not operands are completely unchanged (C09 independence): same observation
-          \cup UNION {Bad(ObsOf(e, v) = ob[v], "BYSTANDER_CHANGED")
-                      : v \in {w \in Vecs : w # e.v /\ ~(e.n \in VecOps2 /\ e.a[1] = w)}}
+          \cup (IF e.n \notin ElemOps THEN JudgeTransfer(e, ob) \cup JudgeFootprint(e, ob) ELSE {})
+          \* containers that are not operands are completely unchanged (C09, C12 independence): same observation
+          \cup UNION {Bad(ObsOf(e, v) = ob[v], "BYSTANDER_CHANGED") : v \in Vecs \ TouchedVecs(e)}
+          \cup UNION {Bad(EObsOf(e, x) = obe[x], "BYSTANDER_CHANGED") : x \in Elems \ TouchedEls(e)}
           \* live instrumented objects = exactly the slots of the held values; while a moved-from container
           \* exists it may still hold moved-from objects (element-wise move between unequal allocators), so
           \* only "every held value is a live object" is demanded then - the end of the history still requires
@@ -280,18 +331,26 @@ StepOp(e) ==
           \cup (LET want == UNION {LET o == ObsOf(e, v) IN
                                   IF o # NoObs /\ o.st = "live" /\ ShapeOK(R.vec[v], Primary(o))
                                   THEN SlotsOf(o, Primary(o)) ELSE {} : v \in Vecs}
-                IN IF \A v \in Vecs : R.vec[v].st # "moved"
+                             \cup UNION {LET o == EObsOf(e, x) IN
+                                  IF o # NoObs /\ o.st = "live" /\ R.el[x].st = "live"
+                                     /\ ShapeOK([elems |-> <<R.el[x].e>>], <<o.P[o.pn[1]]>>)
+                                  THEN SlotsOf(o, <<o.P[o.pn[1]]>>) ELSE {} : x \in Elems}
+                IN IF (\A v \in Vecs : R.vec[v].st # "moved") /\ (\A x \in Elems : R.el[x].st # "moved")
                    THEN Bad(lf.objs = want, "LIVE_OBJECTS")
                    ELSE Bad(want \subseteq lf.objs, "LIVE_OBJECTS"))
     IN /\ vec' = R.vec /\ el' = R.el
        /\ heap' = lg.heap /\ objs' = lf.objs
        /\ ob' = [v \in Vecs |-> ObsOf(e, v)]
+       /\ obe' = [x \in Elems |-> EObsOf(e, x)]
        /\ ex' = exa
        /\ (IF kinds = {} THEN TRUE
            ELSE Report([h |-> e.h, s |-> e.s, n |-> e.n,
                         sz0 |-> IF e.v \in Vecs THEN SizeOrNeg(vec[e.v]) ELSE -1,
                         sz1 |-> IF e.v \in Vecs THEN SizeOrNeg(R.vec[e.v]) ELSE -1], kinds))
-       /\ skip' = (kinds # {})
+       \* after a divergence that leaves the model and the real object in step (layout, stability, footprint,
+       \* allocator identity: "soft") the history is judged further, so that a defect is also seen through its
+       \* later consequences for the other properties; any other divergence ends the judgement of the history
+       /\ skip' = (kinds \ SoftKinds # {})
 
 StepEnd(e) ==
   LET lg == LedgerFold(heap, {}, e.sub, 1)
@@ -301,13 +360,14 @@ StepEnd(e) ==
                \cup Bad(lf.objs = {} /\ e.objs = <<>>, "OBJECTS_NEVER_DESTROYED")
   IN /\ (IF kinds = {} THEN TRUE ELSE Report([h |-> e.h, s |-> 0, n |-> "end"], kinds))
      /\ skip' = TRUE
-     /\ UNCHANGED <<vec, el, heap, objs, ob, ex>>
+     /\ UNCHANGED <<vec, el, heap, objs, ob, obe, ex>>
 
 TraceInit ==
   /\ l = 1 /\ skip = TRUE
   /\ vec = [v \in Vecs |-> Absent] /\ el = [x \in Elems |-> Absent]
   /\ act = [n |-> "Init", v |-> 0, a |-> <<>>]
   /\ heap = {} /\ objs = {} /\ ob = [v \in Vecs |-> NoObs] /\ ex = [v \in Vecs |-> FALSE]
+  /\ obe = [x \in Elems |-> NoObs]
 
 TraceNext ==
   /\ l <= Len(TraceLog)
@@ -320,8 +380,8 @@ TraceNext ==
                                            sz0 |-> IF e.v \in Vecs THEN SizeOrNeg(vec[e.v]) ELSE -1, sz1 |-> -1],
                                           {"CRASH:" \o e.kind})
                                 /\ skip' = TRUE
-                                /\ UNCHANGED <<vec, el, heap, objs, ob, ex>>
-       [] e.e = "skip"  -> skip' = TRUE /\ UNCHANGED <<vec, el, heap, objs, ob, ex>>
+                                /\ UNCHANGED <<vec, el, heap, objs, ob, obe, ex>>
+       [] e.e = "skip"  -> skip' = TRUE /\ UNCHANGED <<vec, el, heap, objs, ob, obe, ex>>
        [] e.e = "op"    -> IF skip THEN Hold ELSE StepOp(e)
        [] e.e = "end"   -> IF skip THEN Hold ELSE StepEnd(e)
        [] OTHER         -> Hold
